@@ -26,7 +26,7 @@ MANIFEST = dict(
 
 ASSUMPTIONS = [
     "file and directory names are over [A-Za-z0-9_.] plus a space, %, #, + and one caseless non-ASCII letter (written ~1..~5 in the model's names and decoded by the harness), none is '.' or '..'; str::to_uppercase on stems is modelled as ASCII upper-casing (no cased non-ASCII letters are generated); the map is keyed by file-system paths, so Url::from_file_path/to_file_path must be mutually inverse also on names a URI percent-encodes - checked by the correspondence, not assumed",
-    "no symbolic links and a canonical scratch root, so std::fs::canonicalize is the identity on existing paths; all directories are readable; the file system is case-sensitive and does not change during one index walk",
+    "no symbolic links INSIDE the workspace (15% of the cases reach the whole workspace through a symbolic link: keys must still be the canonical paths); all directories are readable; the file system is case-sensitive and does not change during one index walk",
     "the *.god files under the workspace root have pairwise distinct stems ignoring case (two files with the same stem overwrite each other in class_uri_map, in read_dir order)",
     "requests (change/parse/save/close/get_document_info) are made for existing paths only: get_key_for_path panics on a missing file (finding D2, handled under property C01); the workspace root is absent, missing, or a directory (read_dir on a regular file panics while the map lock is held)",
     "read_dir order is not modelled: observations are compared as sets sorted by path and record identities are numbered by first appearance in that order",
@@ -265,7 +265,8 @@ def gen_cases(ctx):
             root, es = "/missing", g.entries(0, min(maxdepth, 2))
         tree = show_entries(es)
         for _ in range(5):
-            cases.append(";".join([root, tree] + gen_history(rng, g, root, es)))
+            # an empty first op: the client reaches the workspace through a symbolic link (see eng_index.rs)
+            cases.append(";".join([root, tree] + ([""] if rng.random() < 0.15 else []) + gen_history(rng, g, root, es)))
     return cases
 
 
